@@ -41,6 +41,21 @@ def log(*a):
     print(*a, flush=True)
 
 
+_CHILDREN = set()
+
+
+def _kill_children(signum=None, frame=None):
+    """children run in their own sessions (setsid) so that a time-out can kill a whole solver tree; when this driver itself is
+    terminated (outer `timeout`, Ctrl-C) they would otherwise keep running as orphans"""
+    for pid in list(_CHILDREN):
+        try:
+            os.killpg(pid, 9)
+        except Exception:
+            pass
+    if signum is not None:
+        sys.exit(2)
+
+
 def sh(cmd, cwd=None, env=None, timeout=None, memcap=True, logfile=None):
     """run a command, return (rc, output)"""
     e = dict(os.environ)
@@ -56,9 +71,11 @@ def sh(cmd, cwd=None, env=None, timeout=None, memcap=True, logfile=None):
 
     p = subprocess.Popen(cmd, cwd=cwd, env=e, stdout=subprocess.PIPE, stderr=subprocess.STDOUT,
                          preexec_fn=pre, text=True, errors="replace")
+    _CHILDREN.add(p.pid)
     try:
         out, _ = p.communicate(timeout=timeout)
         rc = p.returncode
+        _CHILDREN.discard(p.pid)
     except subprocess.TimeoutExpired:
         try:
             os.killpg(p.pid, 9)
@@ -581,4 +598,8 @@ def write_evidence(pid, cfg, tier, seed, queries, holds, undec, violations, know
 
 
 if __name__ == "__main__":
+    import signal
+    signal.signal(signal.SIGTERM, _kill_children)
+    signal.signal(signal.SIGINT, _kill_children)
+    signal.signal(signal.SIGHUP, _kill_children)
     sys.exit(main())
